@@ -276,7 +276,17 @@ pub fn gen_instance(t: &mut Tape, cfg: &InstCfg, ctx: &mut Ctx) -> GI {
         let c = gen_constraint(t, cids[n_act + i], &used_pool, cfg, ctx);
         let mut rc = v1::RemovedConstraint::default();
         rc.constraint = Some(c);
-        rc.removed_reason = if t.coin() { "relaxed".to_string() } else { gen_string(t) };
+        rc.removed_reason = match t.weighted(&[4, 3, 1, 1, 1]) {
+            0 => "relaxed".to_string(),
+            1 => gen_string(t),
+            // reasons that the SDK's own transformations record
+            2 => "uniform_penalty_method".to_string(),
+            3 => "penalty_method".to_string(),
+            _ => "convert_inequality_to_equality_with_integer_slack".to_string(),
+        };
+        if rc.removed_reason.contains('_') {
+            ctx.label("removed-reason-of-sdk-transformation");
+        }
         if t.coin() {
             rc.removed_reason_parameters = gen_smap(t);
         }
